@@ -209,11 +209,43 @@ pub fn run_one(scn: &Scn, opts: &ExecOpts) -> Outcome {
             panics: vec![],
             switches: 0,
             cas_weak_points: 0,
+            runaway: false,
         }
     } else {
         rt::run_threads(bodies, opts)
     };
     let t_join = rt::now();
+    if rec.runaway {
+        // threads of this execution are still running inside the crate: keep
+        // everything alive (no destructor, no release of the quarantine); the
+        // caller reports what it has and ends the process
+        let hist = ctx.hist.lk().clone();
+        let hfaults = ctx.hfaults.lk().clone();
+        let cur_ops = *ctx.cur_op.lk();
+        std::mem::forget(ctx);
+        return Outcome {
+            rec,
+            hist,
+            ledger: ledger_report(),
+            mem: MemReport {
+                faults: vec![],
+                crate_live_blocks: 0,
+                crate_live_bytes: 0,
+                sleeps_total: 0,
+            },
+            hfaults,
+            cur_ops,
+            t_start,
+            t_join,
+            post_done: false,
+            teardown_done: false,
+            prefix_problem,
+            post_problem: None,
+            live_delta: (0, 0),
+            n: scn.cfg.n(),
+            growth: None,
+        };
+    }
     let mut post_done = false;
     let mut post_problem = None;
     let clean = rec.status == Status::Complete
